@@ -132,6 +132,9 @@ func VerifRecvDumbDiscardReader(r io.Reader) (string, error) { return recvDumbDi
 func VerifSendDumbDataWriter(w io.Writer, name []byte, size int64) error {
 	return sendDumbDataWriter(w, name, size)
 }
+func VerifRecvDumbDiscardMulti(ctx context.Context, conns []transfer.Conn) error {
+	return recvDumbDiscardMulti(ctx, conns, nil)
+}
 func VerifRecvDumbDiscard(ctx context.Context, conn transfer.Conn) (string, error) {
 	return recvDumbDiscard(ctx, conn, nil)
 }
